@@ -38,6 +38,7 @@ fn fmt_res_clauses(cs: &Option<Vec<BddPartialValuation>>, n: usize) -> String {
 }
 
 pub fn run(key: &str, a: &[String], out: &mut Out) {
+    out.begin(key, a);
     match key {
         "C10.dnf" | "C10.cnf" => {
             // n clauses => Bdd | panic
